@@ -15,7 +15,8 @@
 //	          nested / absent NBT} x light {absent,present,mixed} x status (quick 2, thorough 15
 //	          values); sections of a multi-section chunk rotate through all shapes starting at the
 //	          named one (thorough: also uniform). Each chunk is built by SetBlock histories, then
-//	          WriteTo -> ReadFrom into {fresh chunk from bytes.Reader, fresh from a plain io.Reader,
+//	          WriteTo -> ReadFrom into {fresh chunk from bytes.Reader, fresh from a plain io.Reader
+//	          (fed with what WriteTo hands to a plain io.Writer instead of a bytes.Buffer),
 //	          previously used chunk} of the same section count, and ChunkToSave -> ChunkFromSave with
 //	          YPos {-4, 0} directly and through save.Chunk.Data/Load with compression {none, gzip,
 //	          zlib}. Sub-variants that would repeat the very same execution are run once: the
@@ -27,6 +28,9 @@
 //	          loaded from save as all-stone / all-cave_air}; a Section wire round trip inserted after
 //	          every step (quick: from the fresh start only; thorough: from every start).
 //
+//	histories on ONE destination / ONE source / ONE save.Chunk and the width / section-count sweep:
+//	          see the header of history.go.
+//
 // Oracles are exactly the clauses of the statement; everything else (returned byte counts,
 // block entities through the save form, nil-vs-empty light arrays, fields level.Chunk does not
 // carry, NBT field order) is counted as unspecified.
@@ -37,6 +41,7 @@ import (
 	"fmt"
 	"os"
 	"runtime/pprof"
+	"strings"
 	"sync"
 	"sync/atomic"
 	"time"
@@ -55,7 +60,10 @@ func main() {
 	rep.Rule = "registry: every state id x group sizes {1,15,255} (one section per group, distinct = (group size, group)); " +
 		"chunk: full cross product sections x block shape x biome shape x height-map class x block-entity configuration x light class x status " +
 		"(distinct = distinct descriptor; every descriptor builds a different chunk; each runs 1-3 network reads and 1-5 save reads, see the header of main.go); " +
-		"counter: every SetBlock history up to the depth bound x start x round-trip place (distinct = distinct (start, history, place)). " +
+		"counter: every SetBlock history up to the depth bound x start x round-trip place (distinct = distinct (start, history, place)); " +
+		"histories on one object (history.go; menus in nethist_menu / srchist_source_menu / srchist_steps / savedst_menu): nethist = every sequence of <=3 (4) menu chunks read into ONE destination, " +
+		"srchist = one source under every sequence of <=3 (4) conversions and mutations ending in a conversion, savedst = every ordered pair (triple) of menu chunks converted into ONE save.Chunk " +
+		"(distinct = distinct sequence; the last conversion of each is judged), twolive = every ordered pair of savedst chunks x compression with both converted before either result is read back; sweep = chunk descriptors for the palette widths and section counts 3..23 outside the main product. " +
 		"non-trivial = all (every case reaches the conversion / the counter)"
 	initRegistries()
 	if pf := os.Getenv("C13_CPUPROFILE"); pf != "" { // development aid only
@@ -71,10 +79,38 @@ func main() {
 	}
 	selftest()
 	loadRegistryFile()
+	// development aid only: C13_PARTS=registry,chunk,sweep,nethist,srchist,savedst,twolive,counter runs a subset
+	// (the run is then marked as capped)
+	want := func(string) bool { return true }
+	if sel := os.Getenv("C13_PARTS"); sel != "" {
+		rep.Cap("C13_PARTS=%s: only these parts were run", sel)
+		want = func(p string) bool { return strings.Contains(","+sel+",", ","+p+",") }
+	}
 	t0 := time.Now()
-	registryPart()
+	if want("registry") {
+		registryPart()
+	}
 	t1 := time.Now()
-	chunkPart()
+	if want("chunk") {
+		chunkPart()
+	}
+	th := time.Now()
+	if want("sweep") {
+		sweepPart()
+	}
+	if want("nethist") {
+		netHistPart()
+	}
+	if want("srchist") {
+		srcHistPart()
+	}
+	if want("savedst") {
+		saveDstPart()
+	}
+	if want("twolive") {
+		twoLivePart()
+	}
+	rep.Extra("seconds_sweep_and_history_families", time.Since(th).Seconds())
 	t2 := time.Now()
 	D := 4
 	if rep.Thorough() {
@@ -84,9 +120,12 @@ func main() {
 	if rep.Thorough() {
 		ctrDeadline = time.Now().Add(14*time.Minute - rep.Elapsed())
 	}
-	counterPart(D, rep.Thorough(), ctrDeadline)
+	if want("counter") {
+		counterPart(D, rep.Thorough(), ctrDeadline)
+	}
 	t3 := time.Now()
 	rep.Extra("seconds_registry_chunk_counter", []float64{t1.Sub(t0).Seconds(), t2.Sub(t1).Seconds(), t3.Sub(t2).Seconds()})
+	rep.Extra("network_writer_x_reader_x_destination", []string{"bytes.Buffer -> bytes.Reader -> fresh", "plain io.Writer -> plain io.Reader -> fresh", "bytes.Buffer -> bytes.Reader -> used (rich chunk read before)", "bytes.Buffer -> bytes.Reader -> used by a chunk of the same shape (one-section chunks)"})
 	rep.Extra("registry_states", nStates)
 	rep.Extra("biome_registry", nBiomes)
 	rep.Count("conversions-executed", atomic.LoadInt64(&convExec))
@@ -219,10 +258,13 @@ func chunkPart() {
 	if rep.Thorough() {
 		deadline = time.Now().Add(20 * time.Minute)
 	}
-	wd := engine.NewWatchdog(engine.Workers()+1, 60*time.Second, func(desc string) {
+	// non-termination only: a case takes well under a second of CPU, but on a machine shared with
+	// many other runs one was seen to need more than 60 s of wall time, hence the generous limit
+	const wdLimit = 600 * time.Second
+	wd := engine.NewWatchdog(engine.Workers()+1, wdLimit, func(desc string) {
 		var c Case
 		json.Unmarshal([]byte(desc), &c)
-		rep.Fail(engine.Failure{Class: "chunk/non-termination", Detail: "one chunk case ran for more than 60 s: " + desc, Case: c}, 0)
+		rep.Fail(engine.Failure{Class: "chunk/non-termination", Detail: fmt.Sprintf("one chunk case ran for more than %v: ", wdLimit) + desc, Case: c}, 0)
 		rep.Cap("aborted by the non-termination watchdog")
 		rep.Finish()
 	})
@@ -271,6 +313,14 @@ func replay() {
 			runChunkCase(&c)
 		case "counter":
 			runCounterCase(&c, 0)
+		case "nethist":
+			runNetHist(&c)
+		case "srchist":
+			runSrcHist(&c)
+		case "savedst":
+			runSaveDst(&c)
+		case "twolive":
+			runTwoLive(&c)
 		default:
 			fmt.Fprintln(os.Stderr, "unknown part", c.Part)
 			os.Exit(2)
